@@ -398,6 +398,13 @@ fn builder_history(spec: &str) -> String {
                 expect.extend_from_slice(&v);
                 b.write_tlv(num(f[1]) as u8, v.as_slice())
             }
+            "tlvs" => {
+                let v = fill(num(f[2]) as usize);
+                expect.push(num(f[1]) as u8);
+                expect.extend_from_slice(&(v.len() as u16).to_be_bytes());
+                expect.extend_from_slice(&v);
+                b.write_payload(ppp::v2::TypeLengthValue::new(num(f[1]) as u8, v.as_slice()))
+            }
             "batch" => {
                 let v = fill(num(f[1]) as usize);
                 let y = [num(f[2]) as u8];
@@ -408,10 +415,17 @@ fn builder_history(spec: &str) -> String {
             _ => return "builder bad-spec".into(),
         };
         match r {
-            Ok(nb) => b = nb,
+            Ok(nb) => {
+                // a single slice / TLV value above 65535 bytes must be refused (C09, C20)
+                let n = match f[0] { "slice" | "batch" => num(f[1]) as usize, "tlv" | "tlvs" => num(f[2]) as usize, _ => 0 };
+                if n > 65535 {
+                    return format!("builder call {} ({}) accepted a value of {} bytes legit=false", i, f[0], n);
+                }
+                b = nb
+            }
             Err(_) => {
-                let n = match f[0] { "slice" | "batch" => num(f[1]) as usize, "tlv" => num(f[2]) as usize, _ => 0 };
-                let fixed = match f[0] { "tlv" => 3, "batch" => n, "slice" => 0, "u16" => 2, _ => 1 };
+                let n = match f[0] { "slice" | "batch" => num(f[1]) as usize, "tlv" | "tlvs" => num(f[2]) as usize, _ => 0 };
+                let fixed = match f[0] { "tlv" | "tlvs" => 3, "batch" => n, "slice" => 0, "u16" => 2, _ => 1 };
                 let legit = n > 65535 || before + fixed > 65535;
                 return format!("builder call {} ({}) failed legit={}", i, f[0], legit);
             }
